@@ -16,13 +16,16 @@ LEAN_MODULE = "PyOak.Props.C19"
 THEOREMS = ["PyOak.Legacy.C19." + t for t in [
     "fail_frame_new", "fail_frame_attach", "detach_never_rejected", "fail_frame_replace_keys",
     "replace_rollback_frame", "fail_frame_replace", "fail_frame_rwith_precheck",
-]] + ["PyOak.Legacy." + t for t in ["attach_fail_frame", "construct_fail_frame"]]
+    "rwith_rollback_root", "rwith_rollback_parent", "fail_frame_rwith", "fail_frame_dup",
+]] + ["PyOak.Legacy." + t for t in [
+    "attach_fail_frame", "construct_fail_frame", "attachPlan_desc", "commit_restore", "reattach_frame",
+    "attach_err_kind", "attach_effect", "construct_newOnly", "duplicate_all",
+]]
 PARTIAL = [
-    "fail_frame_rwith (not proved): replace_with rejected because the new node cannot be attached -- the receiver's "
-    "subtree has been detached and is re-attached by the roll-back; missing lemma: `_attach` after `detach` of a "
-    "consistent subtree restores parent slots, registry entries and content ids of the whole subtree",
-    "fail_frame_dup (not proved): a rejected non-clone duplicate leaves the already duplicated children registered until "
-    "they are garbage collected; the weak-registry collection (gcNew) is glue outside `step`",
+    "fail_frame_dup is stated without the garbage collection: it proves that a rejected duplicate leaves every "
+    "pre-existing record and registry entry untouched and that any additional entry belongs to an object created by the "
+    "rejected call; that these temporaries are gone when the call returns is the weak registry (gcNew in "
+    "Handle/Legacy.lean, glue outside `step`)",
     "transform visitor / ASTTransformer.execute: not modelled in Lean; frame oracle on the real objects only "
     "(3 known findings: no roll-back across several replaced nodes)",
 ]
